@@ -63,7 +63,14 @@ def gen():
     out.append('Definition resolve_cmp : string := "%s".\n' % m.group(1))
     out.append("Definition resolve_limit : N := %s.\n" % F.coq_int(F.find_const(MOD, m.group(2))))
     need(r"let\s+mut\s+start\s*:\s*usize\s*=\s*0;\s*let\s+mut\s+cur_len\s*:\s*isize\s*=\s*source\.len\(\)\s+as\s+isize;", re_, "resolve_edits initialisation")
-    need(r"target\.push_str\(&source\[start\.\.edit\.what\.start\]\);\s*target_mapping\.extend\(source_mapping\[start\.\.edit\.what\.start\]\.iter\(\)\);\s*start\s*=\s*edit\.what\.end;",
+    # the edit may be taken apart first: `let ReplaceOp { what, with } = edit;` (fields possibly renamed)
+    md = re.search(r"let\s+ReplaceOp\s*\{\s*what(?:\s*:\s*(\w+))?\s*,\s*with(?:\s*:\s*(\w+))?\s*,?\s*\}\s*=\s*edit\s*;", re_)
+    if md:
+        W, WITH = md.group(1) or "what", md.group(2) or "with"
+    else:
+        W, WITH = r"edit.what", r"edit.with"
+    We = re.escape(W)
+    need(r"target\.push_str\(&source\[start\.\.%(w)s\.start\]\);\s*target_mapping\.extend\(source_mapping\[start\.\.%(w)s\.start\]\.iter\(\)\);\s*start\s*=\s*%(w)s\.end;" % {"w": We},
          re_, "resolve_edits copy of the unedited stretch")
     need(r"target\.push_str\(&source\[start\.\.\]\);\s*target_mapping\.extend\(source_mapping\[start\.\.\]\.iter\(\)\);", re_, "resolve_edits tail copy")
     m = need(r"if\s+let\s+Some\(v\)\s*=\s*target_mapping\.first_mut\(\)\s*\{\s*\*v\s*=\s*(\d+);\s*\}", re_, "resolve_edits forces the first entry")
@@ -71,33 +78,69 @@ def gen():
     # the three kinds of replacement text: what each arm adds to cur_len.  "bytes" = add_replace(.., <a &str of the text>) whose
     # result is with.len() - what.len() (recognised below); anything else is reported as written
     arms = []
-    for kind in ["Str", "Ref", "Char"]:
-        m = re.search(r"ReplaceTgt::%s\((\w+)\)\s*=>\s*\{?\s*(\w+)\(\s*source_mapping,\s*target,\s*target_mapping,\s*edit\.what,\s*(.*?),?\s*\)\s*\}?\s*,?\s*(?=ReplaceTgt::|\};)" % kind, re_, flags=re.S)
+    call = r"(\w+)\(\s*source_mapping,\s*target,\s*target_mapping,\s*%s,\s*(.*?),?\s*\)" % We
+
+    def text_as_str(kind, v, expr):
+        """is `expr` the text carried by ReplaceTgt::<kind>(v), as a &str?"""
+        expr = squeeze(expr)
+        if kind == "Str":
+            return expr in ("&" + v, v + ".as_str()", v, "&%s[..]" % v, "&*" + v, "&**" + v)
+        if kind == "Ref":
+            return expr in (v, "*" + v, "&*" + v, "&**" + v)
+        m = re.fullmatch(re.escape(v) + r"\.encode_utf8\(&mut (.+)\)", expr)
         if not m:
-            raise F.FactError("resolve_edits: arm ReplaceTgt::%s not recognised" % kind)
-        v, fn, arg = m.group(1), m.group(2), squeeze(m.group(3))
-        as_str = {"Str": "&" + v, "Ref": v, "Char": v + ".encode_utf8(&mut [0; 4])"}[kind]
-        unit = "bytes" if (fn == "add_replace" and arg == as_str) else "%s(%s)" % (fn, arg)
-        arms.append((kind, unit))
-    need(r"cur_len\s*\+=\s*match\s+edit\.with\s*\{", re_, "resolve_edits: cur_len += match edit.with")
+            return False
+        buf = m.group(1)
+        return bool(re.fullmatch(r"\[0(?:u8)?; 4\]", buf)) or bool(re.search(r"let\s+mut\s+%s(?:\s*:\s*\[u8;\s*4\])?\s*=\s*\[0(?:u8)?;\s*4\];" % re.escape(buf), re_))
+
+    m_sel = re.search(r"let\s+(\w+)(?:\s*:\s*&str)?\s*=\s*match\s+&?%s\s*\{(.*?)\};\s*cur_len\s*\+=\s*%s\s*;" % (re.escape(WITH), call), re_, flags=re.S)
+    if m_sel and squeeze(m_sel.group(4)) == m_sel.group(1):
+        # the replacement text is picked first, one call follows
+        body, fn = m_sel.group(2), m_sel.group(3)
+        for kind in ["Str", "Ref", "Char"]:
+            m = re.search(r"ReplaceTgt::%s\((\w+)\)\s*=>\s*(.*?)\s*,\s*(?=ReplaceTgt::|$)" % kind, body + ",", flags=re.S)
+            if not m:
+                raise F.FactError("resolve_edits: arm ReplaceTgt::%s not recognised" % kind)
+            v, expr = m.group(1), m.group(2).strip().rstrip(',').strip()
+            arms.append((kind, "bytes" if (fn == "add_replace" and text_as_str(kind, v, expr)) else "%s(%s)" % (fn, squeeze(expr))))
+    else:
+        for kind in ["Str", "Ref", "Char"]:
+            m = re.search(r"ReplaceTgt::%s\((\w+)\)\s*=>\s*\{?\s*%s\s*\}?\s*,?\s*(?=ReplaceTgt::|\};)" % (kind, call), re_, flags=re.S)
+            if not m:
+                raise F.FactError("resolve_edits: arm ReplaceTgt::%s not recognised" % kind)
+            v, fn, arg = m.group(1), m.group(2), squeeze(m.group(3))
+            arms.append((kind, "bytes" if (fn == "add_replace" and text_as_str(kind, v, arg)) else "%s(%s)" % (fn, arg)))
+        need(r"cur_len\s*\+=\s*match\s+%s\s*\{" % re.escape(WITH), re_, "resolve_edits: cur_len += match edit.with")
     out.append("(* resolve_edits: unit in which every kind of replacement text is added to the running size *)\n")
     out.append("Definition resolve_arm_units : list (string * string) := [%s].\n" % "; ".join('("%s", "%s")' % a for a in arms))
 
     # ---- add_replace
     ar = F.fn_body(edit, "add_replace", EDIT)
     need(r"if\s+with\.is_empty\(\)\s*\{\s*return\s+-\(what\.len\(\)\s+as\s+isize\);\s*\}", ar, "add_replace: empty replacement pushes nothing")
-    m = need(r"target\.push_str\(with\);\s*target_mapping\.push\(source_mapping\[what\.(start|end)\]\);\s*let\s+pos\s*=\s*source_mapping\[what\.(start|end)\];"
-             r"\s*for\s+_\s+in\s+(\d+)\.\.with\.len\(\)\s*\{\s*target_mapping\.push\(pos\);\s*\}\s*with\.len\(\)\s+as\s+isize\s*-\s*what\.len\(\)\s+as\s+isize",
-             ar, "add_replace body")
+    head = (r"target\.push_str\(with\);\s*target_mapping\.push\(source_mapping\[what\.(start|end)\]\);\s*let\s+pos\s*=\s*source_mapping\[what\.(start|end)\];\s*")
+    tail = r"\s*with\.len\(\)\s+as\s+isize\s*-\s*what\.len\(\)\s+as\s+isize\s*$"
+    m = re.search(head + r"for\s+_\s+in\s+(\d+)\.\.with\.len\(\)\s*\{\s*target_mapping\.push\(pos\);\s*\}" + tail, ar, flags=re.S)
+    if not m:
+        # the same number of copies of pos through an iterator: with.len() - k of them; equal to the loop k..with.len() as long
+        # as k <= with.len(), which the early return on an empty replacement guarantees for k <= 1
+        m = re.search(head + r"target_mapping\.extend\(std::iter::repeat\(pos\)\.take\(with\.len\(\)(?:\s*-\s*(\d+))?\)\);" + tail, ar, flags=re.S)
+        if m and int(m.group(3) or 0) > 1:
+            m = None
+    if not m:
+        raise F.FactError("add_replace body: shape not recognised")
+    rest_from = int(m.group(3) or 0)
     need(r"fn\s+add_replace\s*\([^)]*\bwhat\s*:\s*Range<usize>\s*,\s*with\s*:\s*&str\s*,?\s*\)\s*->\s*isize", edit, "add_replace signature (what: Range<usize>, with: &str) -> isize")
     out.append('(* add_replace returns with.len() - what.len() of a &str and a byte range: a difference of BYTE lengths *)\nDefinition repl_delta_unit : string := "bytes".\n')
     out.append('Definition repl_first_sel : string := "%s".\n' % m.group(1))
     out.append('Definition repl_rest_sel : string := "%s".\n' % m.group(2))
-    out.append("Definition repl_rest_from : nat := %d.\n" % int(m.group(3)))
+    out.append("Definition repl_rest_from : nat := %d.\n" % rest_from)
 
     # ---- build: sentinels of mod_c2b / mod_b2c
     bd = F.fn_body(mod, "build", MOD)
-    need(r"self\.mod_c2b\.push\(bidx\);\s*self\.mod_b2c\s*\.extend\(std::iter::repeat\(last_chidx\)\.take\(bidx\s*-\s*last_offset\)\);\s*last_offset\s*=\s*bidx;\s*last_chidx\s*=\s*chidx;",
+    # the loop over the characters of the rewritten text; its pattern variables (char index, byte index, char) are free names
+    m = need(r"for\s+\((\w+),\s*\((\w+),\s*(\w+)\)\)\s+in\s+self\.modified\.char_indices\(\)\.enumerate\(\)\s*\{", bd, "build: loop over modified.char_indices().enumerate()")
+    chidx, bidx, chv = m.group(1), m.group(2), m.group(3)
+    need(r"self\.mod_c2b\.push\(%(b)s\);\s*self\.mod_b2c\s*\.extend\(std::iter::repeat\(last_chidx\)\.take\(%(b)s\s*-\s*last_offset\)\);\s*last_offset\s*=\s*%(b)s;\s*last_chidx\s*=\s*%(c)s;" % {"b": bidx, "c": chidx},
          bd, "build: per-character fill of mod_c2b/mod_b2c")
     m = need(r"self\.mod_b2c\s*\.extend\(std::iter::repeat\(last_chidx\)\.take\(self\.modified\.len\(\)\s*-\s*last_offset\)\);\s*"
              r"self\.mod_c2b\.push\(self\.mod_b2c\.len\(\)\);\s*self\.mod_b2c\.push\(last_chidx\s*\+\s*(\d+)\);", bd, "build: sentinels")
@@ -136,7 +179,7 @@ def gen():
              r"if\s+self\.can_bow\(byte_idx\)\s*\{\s*return\s+i\s*-\s*char_idx;\s*\}\s*\}\s*char_len\s*-\s*char_idx", F.fn_body(mod, "get_word_candidate_length", MOD),
              "get_word_candidate_length body")
     out.append("Definition wcl_first_offset : nat := %d.\n" % int(m.group(1)))
-    need(r"self\.mod_chars\.push\(ch\);\s*let\s+cat\s*=\s*cats\.get_category_types\(ch\);\s*self\.mod_cat\.push\(cat\);\s*self\.mod_c2b\.push\(bidx\);", bd,
+    need(r"self\.mod_chars\.push\(%(ch)s\);\s*let\s+cat\s*=\s*cats\.get_category_types\(%(ch)s\);\s*self\.mod_cat\.push\(cat\);\s*self\.mod_c2b\.push\(%(b)s\);" % {"ch": chv, "b": bidx}, bd,
          "build: one entry of mod_chars / mod_cat / mod_c2b per character")
     need(r"self\.mod_bow\.resize\(self\.modified\.len\(\),\s*false\);", bd, "build: mod_bow has one entry per byte")
     out.append('Definition char_level_methods : list string := ["curr_slice_c"; "orig_slice_c"; "curr_slice"; "can_bow"; "cat_at_char"; "cat_of_range"; "char_distance"; "get_word_candidate_length"].\n')
